@@ -872,7 +872,7 @@ def declare_rules(ck):
             "reader compares with (input class: any object of that kind; write -> read throws)", 23)
     ck.rule("E12.line-per-markup",
             "every opening/closing markup the writer emits is directly followed by a line break, also at the end of a write function "
-            "(the scanner accepts one markup per line; input class: any atlas containing that chart)", 43)
+            "(the scanner accepts one markup per line; input class: any atlas containing that chart)", 45)
     ck.rule("E12.dim-binding",
             "for every shape and every d the index set (get_index_set<c,f>) resp. target set (get_target_set<d>) written under "
             "<Topology dim=d>/<Mapping dim=d> is the one the reader fills for that attribute value (input class: any mesh of that "
@@ -880,8 +880,10 @@ def declare_rules(ck):
     ck.rule("E12.buffer-layout",
             "Graph::serialize and Graph(buffer) agree in cursor form: every header slot is read back into the field it was written "
             "from (sizes re-derived symbolically), payload segments have the same order, start and length, the payload fills the "
-            "allocated buffer, and `size()-k` header encodings are guarded against empty containers (input class: any graph; "
-            "the default-constructed graph for the last clause)", 9)
+            "allocated buffer (symbolic, general case); on the concrete degenerate states (all containers empty; first container of size "
+            "one) writer and reader are evaluated with all their emptiness case splits and inlined accessor bodies: header values "
+            "representable, reader inside buffer/containers, every size observer (e.g. get_num_nodes_domain) equal for original and "
+            "rebuilt object (input class: any graph; the default-constructed graph)", 10)
     ck.rule("E12.ini-delimiters",
             "every line form PropertyMap::write emits (key = value, [section], {, } # comment) is, after read()'s own comment "
             "stripping and trimming, classified by a distinct non-rejecting branch of read()'s if-chain (predicates and the comment "
@@ -2978,24 +2980,77 @@ def rule_buffer_layout(ck, W, gfacts):
     if w.segs and w.bytes is not None:
         end = sp.expand((w.segs[-1][0] + w.segs[-1][1]) * 8)
         ck.ob("E12.buffer-layout", "Graph/total", eq(end, w.bytes), "last segment ends at byte %s, buffer has %s bytes" % (end, sp.expand(w.bytes)), fw.file, fw.line)
-    # D. header encodings `size() - k` are only computed for size() >= k
-    e = W.ecfg(fw)
-    for k, node in sorted(w.slot_nodes.items()):
-        for x in walk(node.get("rhs")):
-            if x.get("k") == "Bin" and x["op"] == "-" and strip(x["rhs"]).get("k") == "Int":
-                l = strip(x["lhs"])
-                if l.get("k") == "MCall" and l.get("n") == "size":
-                    fs = e.facts_at(node) or set()
-                    try:
-                        wit, nok = small_model(set(fs), x, {"k": "Int", "v": "1000000"}, lo_only=True)
-                    except Unknown as ex:
-                        ck.incomplete("E12.buffer-layout", "header slot %d: %s" % (k, ex))
-                        continue
-                    ck.ob("E12.buffer-layout", "Graph/header-domain:slot%d" % k, wit is None,
-                          "size()-k only computed for size() >= k" if wit is None else
-                          "`%s` is computed in unsigned arithmetic without a dominating check that the container is large enough: for %s the header "
-                          "value wraps to 2^64-1 and the reader cannot rebuild the object (an early-out for empty objects must precede the header encoding)" % (
-                              render(x)[:50], ", ".join("%s=%d" % kv for kv in sorted(wit[0].items()))), fw.file, node.get("l"))
+    # D. degenerate objects: the symbolic comparison above follows the general (non-empty) case of every emptiness
+    #    case split; here writer and reader are run on concrete degenerate states with all their own conditions
+    #    (early-outs, `c.empty() ? a : b` inside inlined accessors, `if(n > 0)` guards) evaluated.  The rebuilt object
+    #    must answer every size observer of the class (const, argument-free, single-return members) like the original.
+    conts = sorted({str(x)[2:] for e_ in list(w.slots.values()) + [sg[1] for sg in w.segs] for x in e_.free_symbols if str(x).startswith("N_")},
+                   key=lambda c: [sg[2] for sg in w.segs].index(c) if c in [sg[2] for sg in w.segs] else 99)
+    scal = sorted({str(x)[2:] for e_ in w.slots.values() for x in e_.free_symbols if str(x).startswith("F_")})
+    cls_fns = [g for g in gfacts.functions if g.cls == fw.cls and g.d.get("const") and not g.params and g.body is not None]
+    observers = []
+    for g in cls_fns:
+        rets = [x for x in g.nodes() if x.get("k") == "Return"]
+        if len(rets) == 1 and re.match(r"^(FEAT::)?Index$|unsigned long|std::size_t", (g.type(g.d.get("rt")) if g.d.get("rt") is not None else "Index")):
+            observers.append((g, rets[0].get("e")))
+    states = [("all-empty", {c: 0 for c in conts})]
+    if conts:
+        st = {c: 0 for c in conts}
+        st[conts[0]] = 1
+        states.append(("%s=1" % conts[0], st))
+    for label, st in states:
+        key = "Graph/degenerate:%s" % label
+        env = {"N_" + c: v for c, v in st.items()}
+        env.update({"F_" + f_: 3 for f_ in scal})
+        wc = CursorInterp(W, fw, "w", env=dict(env))
+        wc.run()
+        probs = []
+        compared = set()
+        if wc.unknown:
+            ck.incomplete("E12.buffer-layout", "%s: writer not evaluable on the concrete state: %s" % (key, wc.unknown[0]))
+            continue
+        bad_slot = [(k, v) for k, v in sorted(wc.slots.items()) if not v.is_Integer or int(v) < 0 or int(v) >= 2 ** 64]
+        for k, v in bad_slot:
+            probs.append("header slot %d is %s for this object (`%s`): not representable, the unsigned store wraps and the reader rebuilds a different/invalid object" % (
+                k, v, render(wc.slot_nodes[k].get("rhs"))[:60]))
+        if not bad_slot:
+            renv = {"S%d" % k: int(v) for k, v in wc.slots.items()}
+            if wc.bytes is not None and wc.bytes.is_Integer:
+                renv["BYTES"] = int(wc.bytes)
+            rc = CursorInterp(W, fr, "r", env=renv)
+            rc.run()
+            if rc.unknown:
+                ck.incomplete("E12.buffer-layout", "%s: reader not evaluable on the concrete header: %s" % (key, rc.unknown[0]))
+                continue
+            for start, ln, fld, node in rc.segs:
+                if not (start.is_Integer and ln.is_Integer):
+                    probs.append("segment of %s has no concrete extent" % fld)
+                    continue
+                if "BYTES" in renv and (int(start) + int(ln)) * 8 > renv["BYTES"]:
+                    probs.append("reader copies %d entries of %s from u64 offset %d but the buffer has only %d bytes" % (int(ln), fld, int(start), renv["BYTES"]))
+                alloc = rc.sizes.get(fld, sp.Integer(0))
+                if alloc.is_Integer and int(ln) > int(alloc):
+                    probs.append("reader copies %d entries into %s which has %d" % (int(ln), fld, int(alloc)))
+            back = {"N_" + c: int(rc.sizes.get(c, sp.Integer(0))) for c in conts if rc.sizes.get(c, sp.Integer(0)).is_Integer}
+            for f_ in scal:
+                v = rc.fields.get(f_)
+                if v is not None and v.is_Integer:
+                    back["F_" + f_] = int(v)
+            for g, expr in observers:
+                try:
+                    ow = CursorInterp(W, fw, "w", env=dict(env)).sym_general(expr)
+                    orr = CursorInterp(W, fw, "w", env=dict(back)).sym_general(expr)
+                except Unknown:
+                    continue
+                if ow.is_Integer and orr.is_Integer:
+                    compared.add(g.name)
+                if ow.is_Integer and orr.is_Integer and int(ow) != int(orr):
+                    probs.append("%s() is %d for the original and %d for the object rebuilt from its buffer" % (g.name, int(ow), int(orr)))
+        ck.ob("E12.buffer-layout", key, not probs,
+              "; ".join(probs) or "header representable, reader stays inside buffer and containers, size observers agree (%s)" % ", ".join(sorted(compared)),
+              fw.file, fw.line)
+        if not probs and not compared:
+            ck.incomplete("E12.buffer-layout", "%s: no size observer of %s could be evaluated" % (key, fw.cls))
 
 
 # -------------------------------------------------------------------------------------------------
